@@ -180,11 +180,13 @@ def fuse_charge(mod, ts, ss):
     return canon(mod, tuple(sum(s * t[c] for t, s in zip(ts, ss)) for c in range(len(mod))))
 
 
-def build_tensor(cfg, sym, s, legs, n, rng, density=0.8, dtype='float64', isdiag=False):
-    """ legs: list of leg spaces [(t, D), ...];  values: small non-zero (Gaussian) integers """
+def build_tensor(cfg, sym, s, legs, n, rng, density=0.8, dtype='float64', isdiag=False, target_sym=None):
+    """ legs: list of leg spaces [(t, D), ...];  values: small non-zero (Gaussian) integers.
+    target_sym: the tensor lives in another group that admits the same blocks (C16: same layout, different symmetry) """
     import yastn
     mod = SYMS[sym]
-    a = yastn.Tensor(config=cfg, s=tuple(s), n=n if mod else None, isdiag=isdiag, dtype=dtype)
+    nt = canon(SYMS[target_sym], n) if target_sym else n
+    a = yastn.Tensor(config=cfg, s=tuple(s), n=nt if mod else None, isdiag=isdiag, dtype=dtype)
     combos = list(itertools.product(*legs)) if legs else [()]
     allowed = [c for c in combos if fuse_charge(mod, [x[0] for x in c], s) == tuple(n)]
     if isdiag:
